@@ -27,9 +27,22 @@ def gen_multi_case(r, idx):
     add_refs_multi(r.split("mr"), main, libs, kind)
     main = B.prune_unrenderable(main, "D")
     files = {lb["file"]: B.render(lb["nodes"], "D")[0] for lb in libs}
+    builtins = []
+    if r.chance(0.6):
+        # a builtin model: the same content as lib0.m (so every name of lib0 exists in a local and in a builtin model:
+        # the local one must win) plus a class z9 that exists only there
+        bn = [n for n in libs[0]["nodes"]]  # same objects, rendered a second time below
+        text0 = files["lib0.m"]
+        if not any(n.kind == "Import" for n in bn):
+            files["bi0.m"] = "class z9;\n" + text0
+            builtins = ["bi0.m"]
+            holder = next((n for n in main if n.kind == "Class"), None)
+            if holder is not None:
+                holder.refs["uses"] = list(holder.refs.get("uses") or []) + ["z9"]
     text, sites = B.render(main, "D")
     files["main.m"] = text
-    return {"gid": "D", "provider": kind, "files": files, "main": "main.m", "nodes": main, "libs": libs, "pool": pool, "idx": idx}
+    return {"gid": "D", "provider": kind, "files": files, "main": "main.m", "nodes": main, "libs": libs, "pool": pool, "idx": idx,
+            "builtins": builtins}
 
 
 def add_refs_multi(r, main, libs, kind):
@@ -90,9 +103,10 @@ def children_r(world, redir, o, cur, depth=0):
     return out + B.d_children(world, o)
 
 
-def spec_multi(world, conf, locals_, redir, r, parts, T):
-    """(start index, scope index, chain ends) of the first start object at which a well-typed chain exists."""
-    starts = [r] + locals_.get(root_of(world, r), [])
+def spec_multi(world, conf, locals_, redir, r, parts, T, builtins=()):
+    """(start index, scope index, chain ends) of the first start object at which a well-typed chain exists
+    (starts: the referrer, the local models of its model, the builtin models of the metamodel)."""
+    starts = [r] + locals_.get(root_of(world, r), []) + list(builtins)
     for k, s0 in enumerate(starts):
         s, i = s0, 0
         while s is not None:
@@ -122,6 +136,8 @@ def multi_queries(r, case, out):
     pool = case["pool"]
     texts = list(pool) + ["%s.%s" % (a, b) for a in pool for b in pool]
     texts += r.sample(["%s.%s.%s" % (a, b, c) for a in pool for b in pool for c in pool], 8)
+    if out.get("builtins"):
+        texts += ["z9", "z9." + r.choice(pool)]
     aliases = [world[o]["name"] for o in range(n) if world[o]["cls"] == "Import" and world[o]["name"]]
     for al in aliases:
         texts += [al, al + "." + r.choice(pool), al + "." + r.choice(pool) + "." + r.choice(pool)]
@@ -152,7 +168,8 @@ def coq_multi(case, out, queries):
     rd = "; ".join("(%d, [%s])" % (int(k), ";".join("%d" % x for x in v)) for k, v in sorted(out["redir"].items(), key=lambda kv: int(kv[0])))
     qs = "; ".join("(%d, [%s], %s, %d)" % (r, ";".join("%d" % x for x in locals_.get(root_of(world, r), [])), B.coq_s(t), B.CID[T])
                    for r, t, T in queries)
-    return "show_multi %s %s %s [%s] [%s]" % ("true" if case["provider"] == "impas" else "false", B.coq_conf(conf), B.coq_tbl(world), rd, qs)
+    return "show_multi %s %s %s [%s] [%s] [%s]" % ("true" if case["provider"] == "impas" else "false", B.coq_conf(conf), B.coq_tbl(world), rd,
+                                                  ";".join("%d" % x for x in out.get("builtins", [])), qs)
 
 
 def main_refs(case):
